@@ -149,8 +149,9 @@ SliceG ==
 
 \* ---- slice K: const_fn / default / custom error / generics across the non-string families (C15 builds these in a #![no_std] crate)
 SliceK ==
-  UNION {{Src(fam, ValOf(fam, vk) \o <<DerB(AsSeq(D))>> \o dfl \o cf, AllFeats) :
-            vk \in VKinds(fam) \ {"std2", "finite2"}, dfl \in {<<>>, <<DflB("valid")>>}, cf \in {<<>>, <<Blk("const_fn")>>},
+  UNION {{Src(fam, sn \o ValOf(fam, vk) \o <<DerB(AsSeq(D))>> \o dfl \o cf, AllFeats) :
+            sn \in {<<>>, <<SanB(<<S("with")>>)>>},
+            vk \in VKinds(fam) \ {"finite2"}, dfl \in {<<>>, <<DflB("valid")>>}, cf \in {<<>>, <<Blk("const_fn")>>},
             D \in {{"Debug"}, {"Debug", "Clone", "Copy", "PartialEq", "PartialOrd"}, {"Debug", "FromStr", "Display"},
                    {"Debug", "TryFrom", "Into", "AsRef", "Deref", "Borrow"}, {"Serialize", "Deserialize"}, {"Debug", "Default"},
                    {"Debug", "Arbitrary"}, {"Debug", "Clone", "PartialEq", "Eq", "PartialOrd", "Ord", "Hash"}}}
